@@ -128,6 +128,7 @@ Proof.
         unfold ino. rewrite firstn_all. cbn. rewrite app_nil_r. exact Q2.
   - destruct I as [V O P N G Q M E]. constructor; cbn [penv pfd ppcs rb pdel]; auto; try congruence.
   - destruct I as [V O P N G Q M E]. constructor; cbn [penv pfd ppcs rb pdel]; auto; try congruence.
+  - exact I.
 Qed.
 End PollProof.
 
@@ -185,6 +186,7 @@ Proof.
   - rewrite H. reflexivity.
   - rewrite H. cbn [spec_step sEnded sDl sE sRemoved negb andb].
     rewrite removed_b_true; [reflexivity|]. apply (qM _ _ _ I); auto.
+  - reflexivity.
 Qed.
 
 Lemma pabs_init : pabs pre (pinit c0 tail) = spec_init c0 tail.
